@@ -12,6 +12,10 @@ counterexample, and ReplayChooser feeds it back to the same harness natively.
 import re
 
 
+class SliceSkip(Exception):
+    """This path belongs to another slice of the same obligation."""
+
+
 class ChoiceExhausted(Exception):
     """A harness consulted more choice points than its stated bound allows."""
 
@@ -129,10 +133,25 @@ class SymbolicChooser(BaseChooser):
 
     symbolic = True
 
-    def __init__(self, fixed=None, limit=400):
+    def __init__(self, fixed=None, limit=400, slice_=None):
         super(SymbolicChooser, self).__init__(fixed)
         self.limit = limit
         self._vars = {}
+        # slice_ = (index, count, depth): the space is partitioned by a hash of the first
+        # `depth` solver decisions; each worker completes only the paths of its own slice
+        self.slice = slice_
+        self._prefix = []
+
+    def _sliced(self, v):
+        if self.slice is None or len(self._prefix) >= self.slice[2]:
+            return
+        self._prefix.append(int(v))
+        if len(self._prefix) == self.slice[2]:
+            h = 0
+            for i, x in enumerate(self._prefix):
+                h = (h * 31 + x * (i + 7) + 3) % 1000003
+            if h % self.slice[1] != self.slice[0]:
+                raise SliceSkip()
 
     def _name(self, key):
         return "c_" + re.sub(r"[^A-Za-z0-9_]", "_", str(key))
@@ -148,19 +167,24 @@ class SymbolicChooser(BaseChooser):
         self._bump()
         with ResumedTracing():
             b = proxy_for_type(bool, self._name(key))
-            return True if b else False
+            v = True if b else False
+        self._sliced(v)
+        return v
 
     def _new_pick(self, key, n):
         from crosshair.core import proxy_for_type
         from crosshair.tracers import ResumedTracing
 
         self._bump()
+        v = n - 1
         with ResumedTracing():
             x = proxy_for_type(int, self._name(key))
             for i in range(n - 1):
                 if x == i:
-                    return i
-            return n - 1
+                    v = i
+                    break
+        self._sliced(v)
+        return v
 
     def _lazy_eq(self, li, v):
         from crosshair.core import proxy_for_type
@@ -172,4 +196,6 @@ class SymbolicChooser(BaseChooser):
                 self.count += 1
                 self._vars[li.key] = proxy_for_type(int, self._name(li.key))
             x = self._vars[li.key]
-            return True if x == v else False
+            r = True if x == v else False
+        self._sliced(r)
+        return r
